@@ -163,6 +163,7 @@ class Program:
                     tree = ast.parse(src, filename=path)
                 except SyntaxError as e:
                     raise AnalysisError(f"cannot parse {rel}: {e}")
+                A.canonicalise(tree)
                 A.set_parents(tree)
                 self.modules[mod] = ModuleInfo(mod, path, rel, tree, src)
         for m in self.modules.values():
